@@ -41,6 +41,11 @@ def channels(tier):
         for mode in ("gapped", "cont"):
             out.append((dict(c01._cfg(n, d, fc, sc, k0, mode, kind=kind, size=size, order=order, cplx=cplx, nsub=nsub)),
                         layouts["blocks+gaps"], "type %s%d%s cplx=%s nsub=%d %s" % (kind, size, order, cplx, nsub, mode)))
+    # one channel spread over two top-level directories (files alternate; the directory listed first holds
+    # the later file of each pair, so blocks arrive out of time order and must still be sorted and merged)
+    for mode, lname in (("gapped", "blocks+gaps"), ("cont", "contiguous_multi_file"), ("gapped", "contiguous_multi_file")):
+        k0 = U.start_positions(10, 3, 1000, 2, U.EPOCHS[1:2])[1][0]
+        out.append((dict(c01._cfg(10, 3, 1000, 2, k0, mode)), layouts[lname], "SPLITDIRS 10/3 %s %s" % (mode, lname)))
     # floating-point boundary channels
     for j in c01.fp_jobs("quick")[:: (16 if tier == "quick" else 4)]:
         _, cfg, ops, firsts, label = j
@@ -112,7 +117,20 @@ def run_channel(item):
             bad(key, detail)
         model = run.model
         ch = cfg["ch"]
-        reader = drf.DigitalRFReader(top)
+        tops = top
+        if label.startswith("SPLITDIRS"):
+            import shutil
+
+            top2 = os.path.join(top, "second_disk")
+            data = sorted(p for p in rf.list_tree(run.chdir) if "/rf@" in p)
+            os.makedirs(os.path.join(top2, ch))
+            shutil.copy2(os.path.join(run.chdir, "drf_properties.h5"), os.path.join(top2, ch, "drf_properties.h5"))
+            for i, rel in enumerate(data):
+                if i % 2 == 1:
+                    os.makedirs(os.path.join(top2, ch, os.path.dirname(rel)), exist_ok=True)
+                    os.rename(os.path.join(run.chdir, rel), os.path.join(top2, ch, rel))
+            tops = [top2, top]
+        reader = drf.DigitalRFReader(tops)
         ex = model.exposed(cfg)
         edges = rfrun.edge_set(model, cfg, band=3, limit=28)
         lo, hi = min(ex), max(ex)
@@ -238,7 +256,10 @@ def run_channel(item):
                 if res != "ok":
                     bad({"class": "sample_properties_raised"}, "get_properties(sample=%d) -> %s %r; file %s exists" % (k, res, p, rel), query=[k])
                 else:
-                    with h5py.File(os.path.join(run.chdir, rel), "r") as f:
+                    fp_ = os.path.join(run.chdir, rel)
+                    if not os.path.exists(fp_):
+                        fp_ = os.path.join(top, "second_disk", ch, rel)
+                    with h5py.File(fp_, "r") as f:
                         a = rfrun._attrs(f["rf_data"])
                     if any(p.get(x) != a[x] for x in ("sequence_num", "uuid_str", "init_utc_timestamp", "computer_time")):
                         bad({"class": "sample_properties_wrong_file"}, "get_properties(sample=%d) does not match %s" % (k, rel), query=[k])
